@@ -7,15 +7,28 @@
      `writeDicts` through the chunked int coder; `writePostings` = merge.go
      `writePostings` + intcoder.go `writeAt`)
 
-  The round trips are stated for the list-level twins of Layout's decoders
-  (`Writer.decodeEntriesL`, `Writer.decodeStoredDocL`: same reads, same checks, same
-  order as `Layout.readChunks/walkChunks/decFreq/decLocs/decStoredDoc`, over `Bytes`
-  instead of `ByteArray` + cursor, with Layout's 10-byte / 64-bit uvarint rule).
+  Three layers:
+   1. round trips for list-level twins of Layout's decoders (`Writer.decodeEntriesL`,
+      `Writer.decodeStoredDocL`: same reads, same checks, same order as
+      `Layout.readChunks/walkChunks/decFreq/decLocs/decStoredDoc`, over `Bytes` instead of
+      `ByteArray` + cursor, with Layout's 10-byte / 64-bit uvarint rule);
+   2. simulation: for EVERY `ByteArray`, whatever a twin accepts Layout's own function
+      accepts with the same result (`C09_layout_simulates_*`);
+   3. hence the round trips against Layout's OWN functions on the file's `ByteArray`
+      (`C09_postings_roundtrip_layout`, `C09_stored_roundtrip_layout`).
+  `Layout.decPostings` itself is not a possible subject (bitmap lookup in a string-keyed
+  `Std.HashMap` oracle, last loop inline): `LayoutDefs.layoutEntries` composes Layout's own
+  `readChunks`, `walkChunks`, `decFreq`, `decLocs` exactly as `decPostings` does after the
+  lookup (adjacency checks included).  For stored documents Layout calls its array snappy
+  decoder `snappyFast`; the byte-array theorem assumes it decodes `compress data`
+  (`FastDecodes`, checked by evaluation on the examples below).
   Proofs live in ZapProofs/WriterLemmas*.lean.
 -/
 import ZapProofs.WriterLemmasPost
 import ZapProofs.WriterLemmasStored
 import ZapProofs.WriterLemmasLayoutDefs
+import ZapProofs.WriterLemmasLayoutFinal
+import ZapProofs.WriterLemmasLayoutStored
 import ZapProofs.CodecLemmasContent
 
 namespace Zap.Props.C09Bytes
@@ -100,6 +113,46 @@ theorem C09_postings_record (count cs maxDoc : Nat) (es : List Entry) (roaring :
       ++ putUvarint roaring.length ++ roaring :=
   Post.writePostings_layout count cs maxDoc es roaring hasc hmax hne
 
+/-- Simulation: on EVERY byte array, if the twin decodes the streams at `fo` / `lo`
+    (`lo = 0`: no location stream) to `es` and the streams are back to back up to the
+    record at `off`, Layout's own functions return `es`. -/
+theorem C09_layout_simulates_postings (b : ByteArray) (cs : Nat) (docs : List Nat) (fo lo off : Nat)
+    (es : List Entry) (hfo : fo ≠ 0)
+    (h : decodeEntriesL cs docs ((Layout.ofBA b).drop fo)
+      (if lo = 0 then none else some ((Layout.ofBA b).drop lo)) = some es)
+    (hadjF : ∀ offs data, readChunksL ((Layout.ofBA b).drop fo) = some (offs, data) →
+      b.size - data.length + offs.getLastD 0 = if lo = 0 then off else lo)
+    (hadjL : lo ≠ 0 → ∀ offs data, readChunksL ((Layout.ofBA b).drop lo) = some (offs, data) →
+      b.size - data.length + offs.getLastD 0 = off) :
+    LayoutDefs.layoutEntries b cs docs fo lo off = .ok es :=
+  LP.layoutEntries_sim b cs docs fo lo off es hfo h hadjF hadjL
+
+/-- Round trip against Layout's OWN `readChunks` / `walkChunks` / `decFreq` / `decLocs`:
+    any byte array that holds, after `pre`, what `writePostings` emits decodes at the
+    offsets `writePostings` records to the entries. -/
+theorem C09_postings_roundtrip_layout (b : ByteArray) (pre post roaring : Bytes) (cs maxDoc : Nat)
+    (es : List Entry) (h : EntriesFit cs maxDoc es) (hpre : 0 < pre.length) (hne : es ≠ [])
+    (hb : Layout.ofBA b = pre ++ (writePostings pre.length cs maxDoc es roaring).bytes ++ post) :
+    LayoutDefs.layoutEntries b cs (es.map (·.doc))
+      (writePostings pre.length cs maxDoc es roaring).tfOffset
+      (writePostings pre.length cs maxDoc es roaring).locOffset
+      (writePostings pre.length cs maxDoc es roaring).postingsOffset = .ok es :=
+  Final.layout_postings_roundtrip b pre post roaring cs maxDoc es h.hcs h.hasc h.hmax h.hfreq h.hnorm
+    h.hnorm0 h.hnb h.hlocs h.hszF h.hszL hpre hne hb
+
+/-- The same for the `ByteArray` made of a byte list (`Layout.decodeFile` does
+    `toBA bs`). -/
+theorem C09_postings_roundtrip_file (pre post roaring : Bytes) (cs maxDoc : Nat)
+    (es : List Entry) (h : EntriesFit cs maxDoc es) (hpre : 0 < pre.length) (hne : es ≠ [])
+    (hbytes : ∀ x ∈ pre ++ (writePostings pre.length cs maxDoc es roaring).bytes ++ post, x < 256) :
+    LayoutDefs.layoutEntries
+      (Layout.toBA (pre ++ (writePostings pre.length cs maxDoc es roaring).bytes ++ post)) cs
+      (es.map (·.doc))
+      (writePostings pre.length cs maxDoc es roaring).tfOffset
+      (writePostings pre.length cs maxDoc es roaring).locOffset
+      (writePostings pre.length cs maxDoc es roaring).postingsOffset = .ok es :=
+  C09_postings_roundtrip_layout _ pre post roaring cs maxDoc es h hpre hne (BA.ofBA_toBA _ hbytes)
+
 /-! ### A. stored documents -/
 
 theorem C09_stored_roundtrip (compress : Bytes → Bytes)
@@ -107,6 +160,36 @@ theorem C09_stored_roundtrip (compress : Bytes → Bytes)
     (hsz : (encodeStoredDoc compress sd).length < 2 ^ 64) (pre post : Bytes) :
     decodeStoredDocL (pre ++ encodeStoredDoc compress sd ++ post) pre.length = some sd :=
   Stored.decodeStoredDocL_roundtrip compress hsn sd hsz pre post
+
+/-- Simulation: on EVERY decoding context, if the twin decodes the record at `off` to `sd`
+    and Layout's array snappy decoder agrees with `Codec.snappyDecode` on the record's
+    snappy block, `Layout.decStoredDoc` returns `sd`. -/
+theorem C09_layout_simulates_stored (c : Layout.Ctx) (doc off : Nat) (sd : StoredDoc)
+    (hfast : ∀ s e, storedBlockL (Layout.ofBA c.b) off = some (s, e) → LS.FastAgrees c.b s e)
+    (h : decodeStoredDocL (Layout.ofBA c.b) off = some sd) : Layout.decStoredDoc c doc off = .ok sd :=
+  LS.decStoredDoc_sim c doc off sd hfast h
+
+/-- Round trip against Layout's OWN `decStoredDoc`. -/
+theorem C09_stored_roundtrip_layout (compress : Bytes → Bytes)
+    (hsn : ∀ x, snappyDecode (compress x) = some x) (sd : StoredDoc)
+    (hfd : LS.FastDecodes compress (storedData sd.vals))
+    (hsz : (encodeStoredDoc compress sd).length < 2 ^ 64) (c : Layout.Ctx) (doc : Nat) (pre post : Bytes)
+    (hb : Layout.ofBA c.b = pre ++ encodeStoredDoc compress sd ++ post) :
+    Layout.decStoredDoc c doc pre.length = .ok sd :=
+  LS.layout_stored_roundtrip compress hsn sd hfd hsz c doc pre post hb
+
+/-- The hypotheses on `compress` are satisfiable: the all-literals snappy encoder
+    (`snappyLit`, a valid snappy stream) on data of at most 2^32 bytes (`snappyFast`, like
+    Go's snappy, refuses longer blocks). -/
+theorem C09_fastDecodes_snappyLit (x : Bytes) (hx : x.length ≤ 2 ^ 32) : LS.FastDecodes snappyLit x :=
+  LS.fastDecodes_snappyLit x hx
+
+theorem C09_stored_roundtrip_layout_lit (sd : StoredDoc) (hx : (storedData sd.vals).length ≤ 2 ^ 32)
+    (hsz : (encodeStoredDoc snappyLit sd).length < 2 ^ 64) (c : Layout.Ctx) (doc : Nat) (pre post : Bytes)
+    (hb : Layout.ofBA c.b = pre ++ encodeStoredDoc snappyLit sd ++ post) :
+    Layout.decStoredDoc c doc pre.length = .ok sd :=
+  C09_stored_roundtrip_layout snappyLit snappyDecode_snappyLit sd (C09_fastDecodes_snappyLit _ hx) hsz c doc
+    pre post hb
 
 /-! ### concrete instances: both sides evaluated; Layout's OWN functions on the same bytes -/
 
@@ -196,4 +279,11 @@ open Zap.Props.C09Bytes
 #print axioms C09_postings_roundtrip_writeAt
 #print axioms C09_postings_record
 #print axioms C09_stored_roundtrip
+#print axioms C09_layout_simulates_postings
+#print axioms C09_postings_roundtrip_layout
+#print axioms C09_postings_roundtrip_file
+#print axioms C09_layout_simulates_stored
+#print axioms C09_stored_roundtrip_layout
+#print axioms C09_fastDecodes_snappyLit
+#print axioms C09_stored_roundtrip_layout_lit
 end Report
